@@ -311,6 +311,95 @@ theorem run_inv (ops : List Op) (hg : ∀ op ∈ ops, good (opTopic op) = true) 
   exact ⟨WF_empty, by simp [MemTopics.new, abs_empty, absS, Mqtt.Spec.TopicStore.empty],
     by simp [Mqtt.Spec.TopicStore.empty]⟩
 
+/-! ### histories that also contain topics beginning with '$'
+
+Operations on a topic beginning with '$' change neither side: the entry points
+turn them away (`checkSys`), the specification ignores them.  So the refinement
+holds over every history without empty levels; the abstract store never holds a
+filter beginning with '$'. -/
+
+theorem good_of (t : List UInt8) (h1 : noEmptyLevel t = true) (h2 : dollar t = false) : good t = true := by
+  simp [good, h1, h2]
+
+theorem step_inv_any (mt : MemTopics) (subs : List Sub) (op : Op) (hg : noEmptyLevel (opTopic op) = true)
+    (h : Inv mt.sroot subs) (hnd : ∀ e ∈ subs, dollar e.filter = false) :
+    Inv (modelStep mt op).1.sroot (specSubs subs op) ∧ ∀ e ∈ specSubs subs op, dollar e.filter = false := by
+  cases hd : dollar (opTopic op) with
+  | false =>
+    refine ⟨step_inv mt subs op (good_of _ hg hd) h, ?_⟩
+    cases op with
+    | sub f q sub =>
+      simp only [opTopic] at hd
+      simp only [specSubs, hd, Bool.false_eq_true, ↓reduceIte]
+      split
+      · exact hnd
+      · split
+        · exact hnd
+        · intro e he
+          simp only [List.mem_append, List.mem_filter, List.mem_singleton] at he
+          rcases he with he | rfl
+          · exact hnd e he.1
+          · exact hd
+    | unsub f sub =>
+      simp only [specSubs]
+      split
+      · exact hnd
+      · intro e he; exact hnd e (List.mem_filter.mp he).1
+    | unsubAll f => intro e he; exact hnd e (List.mem_filter.mp he).1
+    | subs t q => exact hnd
+    | retain t q p => exact hnd
+    | retained f => exact hnd
+  | true =>
+    have hc : checkSys (opTopic op) = true := hd
+    cases op with
+    | sub f q sub =>
+      simp only [opTopic] at hd hc
+      rw [modelStep_sub_sys _ _ _ _ hc]
+      simp only [specSubs, hd, ↓reduceIte]
+      exact ⟨h, hnd⟩
+    | unsub f sub =>
+      simp only [opTopic] at hd hc
+      rw [modelStep_unsub_sys _ _ _ hc]
+      simp only [specSubs, hd, ↓reduceIte]
+      exact ⟨h, hnd⟩
+    | unsubAll f =>
+      simp only [opTopic] at hd hc
+      rw [modelStep_unsubAll_sys _ _ hc]
+      have : subs.filter (fun e => !(e.filter == f)) = subs := by
+        rw [List.filter_eq_self]
+        intro e he
+        have : e.filter ≠ f := by intro x; rw [← x, hnd e he] at hd; exact absurd hd (by simp)
+        simp [this]
+      simp only [specSubs, this]
+      exact ⟨h, hnd⟩
+    | subs t q => rw [modelStep_subs]; exact ⟨h, hnd⟩
+    | retain t q p => rw [modelStep_retain]; exact ⟨h, hnd⟩
+    | retained f => rw [modelStep_retained]; exact ⟨h, hnd⟩
+
+theorem run_inv_any_aux (ops : List Op) :
+    ∀ (mt : MemTopics) (s : S), (∀ op ∈ ops, noEmptyLevel (opTopic op) = true) → Inv mt.sroot s.subs →
+      (∀ e ∈ s.subs, dollar e.filter = false) →
+      Inv (ops.foldl (fun mt op => (modelStep mt op).1) mt).sroot
+          (ops.foldl (fun s op => (step s op).1) s).subs ∧
+      ∀ e ∈ (ops.foldl (fun s op => (step s op).1) s).subs, dollar e.filter = false := by
+  induction ops with
+  | nil => intro mt s _ h hnd; exact ⟨h, hnd⟩
+  | cons op ops ih =>
+    intro mt s hg h hnd
+    simp only [List.foldl_cons]
+    obtain ⟨h1, h2⟩ := step_inv_any mt s.subs op (hg op (by simp)) h hnd
+    apply ih _ _ (fun o ho => hg o (by simp [ho]))
+    · rw [step_subs]; exact h1
+    · rw [step_subs]; exact h2
+
+/-- after any history without empty levels - operations on topics beginning
+with '$' included - the trie refines the abstract store -/
+theorem run_inv_any (ops : List Op) (hg : ∀ op ∈ ops, noEmptyLevel (opTopic op) = true) :
+    Inv (mrun ops).sroot (srun ops).subs :=
+  (run_inv_any_aux ops _ _ hg
+    ⟨WF_empty, by simp [MemTopics.new, abs_empty, absS, Mqtt.Spec.TopicStore.empty],
+      by simp [Mqtt.Spec.TopicStore.empty]⟩ (by simp [Mqtt.Spec.TopicStore.empty])).1
+
 /-! ### the query -/
 
 /-- the specification's answer to `subscribers t q` -/
